@@ -22,9 +22,10 @@
       documented meaning of the zero values of FilterTest and MatchType).
     - [us], [up]: net/url's escaping ((&url.URL{Path: p}).String()) and parsing
       (url.Parse(s).Path), inputs of the model.
-    - [collides d]: some filter element of [d] declares a namespace prefix spelled like
-      one of its own attributes (xmlns:name, xmlns:test, xmlns:match-type, ...): the
-      domain of the known finding C09-nsdecl-as-attribute. *)
+    - [handle_decoded]: [handle_report] without the attribute filter reportReq.UnmarshalXML
+      decodes through (unqualifiedAttrReader: attributes in a namespace, declarations
+      xmlns:p included, are left out) - the code before the repair of the defect
+      "namespace declaration taken for an attribute". *)
 From GW Require Import Base CardXml CardWire CardWireProofs CardWireProofs2.
 
 (** The reference is coherent: a written request is read back as itself ... *)
@@ -67,7 +68,7 @@ Print Assumptions C09_client_multiget_empty_paths.
 (** Wire to backend: every document the RFC reader accepts - whatever wrote it -
     reaches the backend as the request it denotes. *)
 Theorem C09_server_denotes : forall up path d r c,
-  rfc_read d = Some r -> collides d = false -> limit_fits r = true ->
+  rfc_read d = Some r -> limit_fits r = true ->
   backend_call_of up path r = Some c ->
   exists o, handle_report up path d = Ok o /\ canon_outcome o = c.
 Proof. exact server_denotes_read. Qed.
@@ -75,11 +76,17 @@ Print Assumptions C09_server_denotes.
 
 (** In particular every lexical variant of the document written for a request. *)
 Theorem C09_server_denotes_variants : forall up path r d c,
-  wf_request r = true -> var (rfc_write r) d -> collides d = false -> limit_fits r = true ->
+  wf_request r = true -> var (rfc_write r) d -> limit_fits r = true ->
   backend_call_of up path r = Some c ->
   exists o, handle_report up path d = Ok o /\ canon_outcome o = c.
 Proof. exact server_denotes_variants. Qed.
 Print Assumptions C09_server_denotes_variants.
+
+(** The attribute filter of the decoder is invisible to the reference reader. *)
+Theorem C09_rfc_read_filtered : forall d r,
+  rfc_read d = Some r -> rfc_read (strip_qualified d) = Some r.
+Proof. exact rfc_read_strip. Qed.
+Print Assumptions C09_rfc_read_filtered.
 
 (** Client to backend. *)
 Theorem C09_end_to_end_query : forall up path q r,
@@ -101,10 +108,11 @@ Print Assumptions C09_end_to_end_multiget.
 (** Enumerations.  Whatever the document: a string outside the RFC's value list as
     test (filter, prop-filter), match-type or negate-condition (text-match of a
     prop-filter or of a param-filter) is refused with 400 and nothing reaches the
-    backend.  [doc_bad_enum] (CardWireProofs2.v) descends the tree as the decoder does;
-    the invalid side is every other string, not a sample of them. *)
+    backend.  [doc_bad_enum] (CardWireProofs2.v) descends the tree as the decoder does
+    ([strip_qualified]: attributes in a namespace are not looked at); the invalid side
+    is every other string, not a sample of them. *)
 Theorem C09_enumerations_refused : forall up path d,
-  doc_bad_enum d = true -> handle_report up path d = Err 400.
+  doc_bad_enum (strip_qualified d) = true -> handle_report up path d = Err 400.
 Proof. exact server_refuses_invalid_enum. Qed.
 Print Assumptions C09_enumerations_refused.
 
@@ -167,8 +175,8 @@ Print Assumptions C09_client_query_reads.
 
 (** The executable specifications evaluated by the oracle accept the model: an
     implementation that agrees with the model meets them - always on the client side,
-    and on the server side for every document the reference reads, outside the selector
-    of the known finding; and for every document with an invalid enumeration value. *)
+    and on the server side for every document the reference reads and for every
+    document with an invalid enumeration value. *)
 Theorem C09_agree_implies_spec_client : forall us i o,
   client_agrees us i o = true -> client_spec_ok us i o = true.
 Proof. exact client_agree_implies_spec. Qed.
@@ -176,32 +184,31 @@ Print Assumptions C09_agree_implies_spec_client.
 
 Theorem C09_agree_implies_spec_server : forall up path x d o r,
   validate x = Some r -> rfc_read d = Some r ->
-  server_agrees up path d o = true ->
-  kf_nsdecl up path x d o = false -> server_spec_ok up path x d o = true.
-Proof. exact server_kf_or_spec. Qed.
+  server_agrees up path d o = true -> server_spec_ok up path x d o = true.
+Proof. exact server_agree_implies_spec_conformant. Qed.
 Print Assumptions C09_agree_implies_spec_server.
 
 Theorem C09_agree_implies_spec_server_bad_enum : forall up path x d o,
-  validate x = None -> doc_bad_enum d = true ->
+  validate x = None -> doc_bad_enum (strip_qualified d) = true ->
   server_agrees up path d o = true -> server_spec_ok up path x d o = true.
 Proof. exact server_agree_implies_spec_bad_enum. Qed.
 Print Assumptions C09_agree_implies_spec_server_bad_enum.
 
-(** Known finding C09-nsdecl-as-attribute: the hypothesis [collides d = false] is
-    needed.  Two conformant documents (lexical variants of written requests) on which
-    the server does what the model says and not what the document denotes: one is
-    handed to the backend with the property name replaced by a namespace URI, the
-    other is refused. *)
-Theorem C09_nsdecl_as_attribute_refuted :
+(** Recorded witnesses of the repaired defect "namespace declaration taken for an
+    attribute": two conformant documents (lexical variants of written requests) which
+    the code before the repair ([handle_decoded] on the unfiltered tree) handed to the
+    backend with the property name replaced by a namespace URI, resp. refused, and which
+    now reach the backend as the requests they denote. *)
+Theorem C09_nsdecl_as_attribute_repaired :
   (rfc_read kf_doc_altered = validate kf_x_altered /\
    var (rfc_write_raw kf_x_altered) kf_doc_altered /\
-   server_agrees kf_up kf_path kf_doc_altered kf_obs_altered = true /\
-   kf_nsdecl kf_up kf_path kf_x_altered kf_doc_altered kf_obs_altered = true /\
-   server_spec_ok kf_up kf_path kf_x_altered kf_doc_altered kf_obs_altered = false) /\
+   handle_decoded kf_up kf_path kf_doc_altered
+     = Ok (CallQuery kf_path (mkQ dr_zero [mkPF "urn:x" "" false [] []] "" 0%Z)) /\
+   handle_report kf_up kf_path kf_doc_altered
+     = Ok (CallQuery kf_path (mkQ dr_zero [mkPF "FN" "" false [] []] "" 0%Z))) /\
   (rfc_read kf_doc_refused = validate kf_x_refused /\
    var (rfc_write_raw kf_x_refused) kf_doc_refused /\
-   server_agrees kf_up kf_path kf_doc_refused kf_obs_refused = true /\
-   kf_nsdecl kf_up kf_path kf_x_refused kf_doc_refused kf_obs_refused = true /\
-   server_spec_ok kf_up kf_path kf_x_refused kf_doc_refused kf_obs_refused = false).
-Proof. exact nsdecl_as_attribute_refuted. Qed.
-Print Assumptions C09_nsdecl_as_attribute_refuted.
+   handle_decoded kf_up kf_path kf_doc_refused = Err 400 /\
+   handle_report kf_up kf_path kf_doc_refused = Ok (CallQuery kf_path (mkQ dr_zero [] "" 0%Z))).
+Proof. exact nsdecl_as_attribute_repaired. Qed.
+Print Assumptions C09_nsdecl_as_attribute_repaired.
